@@ -783,10 +783,22 @@ func drawDwPlans(w *smcWorld, n int) []dwPlan {
 }
 
 // c13Client runs the watchdog phase; forC14 adds a termination and the leak check.
-func c13Client(e *Env, forC14 bool) {
+// c13Forced fixes the budget and the per-cycle plans (sweep).
+type c13Forced struct {
+	R     int
+	plans []dwPlan
+}
+
+func c13Client(e *Env, forC14 bool) { c13ClientX(e, forC14, nil) }
+
+func c13ClientX(e *Env, forC14 bool, forced *c13Forced) {
 	t := e.T
 	e.TrustWait = true
 	w := newSmcWorld(e, true)
+	if forced != nil {
+		w.R, w.I, w.W = forced.R, time.Second, 5*time.Second
+		w.cli.MaxRetransmits, w.cli.RetransmitInterval, w.cli.WatchdogInterval = uint(w.R), w.I, w.W
+	}
 	s := hsScript{answerCER: 1, ceaKind: "success", delay: time.Duration(t.Draw(3)) * w.I / 4, delayClass: "quick"}
 	if !smcHandshake(w, s) {
 		w.teardown()
@@ -803,6 +815,9 @@ func c13Client(e *Env, forC14 bool) {
 		nCycles = 1
 	}
 	plans := drawDwPlans(w, nCycles)
+	if forced != nil {
+		plans = forced.plans
+	}
 	e.Act("plans", "%d cycles, last=%s", len(plans), plans[len(plans)-1].kind)
 	var txs []dwTx
 	cycleOf := map[uint32]int{}
@@ -814,7 +829,10 @@ func c13Client(e *Env, forC14 bool) {
 		term = []string{"peer-eof", "rst", "local-close"}[t.Draw(3)]
 	}
 	peerDWRLeft := t.Draw(4)
-	appStalled := false
+	if forced != nil {
+		peerDWRLeft = 0
+	}
+	appStalled := forced != nil // (the sweep does not stall application writes)
 	type pend struct {
 		req RefMsg
 		at  time.Duration
@@ -1185,4 +1203,92 @@ func c10Client(e *Env) {
 		e.Probe("app-behind-cea-dispatched")
 	}
 	smcAfter(w, s)
+}
+
+// ---------------------------------------------------------------- C12 sweep
+
+var c12SweepKinds = []string{"success", "success-vs", "failed", "failed-3xxx", "success-no-sharing", "success-no-sharing-vs", "success-appless", "no-result-code", "no-origin-host", "dup-success"}
+var c12SweepDelays = []string{"immediate", "half", "deadline-1ns", "deadline+1ns", "on-deadline", "after-budget"}
+
+type c12Case struct {
+	R, k   int
+	kind   string
+	delay  string
+}
+
+var c12Cases []c12Case
+
+func c12SweepN(thorough bool) int {
+	if c12Cases == nil {
+		for R := 0; R <= 3; R++ {
+			for k := 0; k <= R+1; k++ {
+				for _, kind := range c12SweepKinds {
+					for _, d := range c12SweepDelays {
+						c12Cases = append(c12Cases, c12Case{R, k, kind, d})
+					}
+				}
+			}
+		}
+	}
+	return len(c12Cases)
+}
+
+func c12Sweep(e *Env) {
+	c12SweepN(true)
+	c := c12Cases[e.Case]
+	e.TrustWait = true
+	e.NonTrivial()
+	w := newSmcWorld(e, false)
+	w.R, w.I = c.R, time.Second
+	w.cli.MaxRetransmits, w.cli.RetransmitInterval = uint(c.R), time.Second
+	s := hsScript{answerCER: c.k, ceaKind: c.kind, delayClass: c.delay}
+	switch c.delay {
+	case "half":
+		s.delay = w.I / 2
+	case "deadline-1ns":
+		s.delay = w.I - 1
+	case "deadline+1ns":
+		s.delay = w.I + 1
+	case "on-deadline":
+		s.delay = w.I
+	case "after-budget":
+		s.delay = w.I*time.Duration(w.R+2) + time.Millisecond
+	}
+	s.extras = []string{"dup-success", "failed"}
+	s.nAppAfter = 1
+	e.Act("sweep", "R=%d answer=%d kind=%s delay=%s", c.R, c.k, c.kind, c.delay)
+	ok := smcHandshake(w, s)
+	if ok {
+		smcAfter(w, s)
+	}
+	w.teardown()
+}
+
+// ---------------------------------------------------------------- C13 sweep
+
+var c13SweepPlans = []dwPlan{
+	{kind: "ack", delay: 0}, {kind: "ack", delay: time.Second / 2}, {kind: "ack", delay: time.Second - 1},
+	{kind: "ack-retrans", j: 1, delay: time.Microsecond}, {kind: "fail-then-ack", delay: time.Second / 2},
+	{kind: "both"}, {kind: "late"}, {kind: "silent"},
+}
+
+func c13SweepN(thorough bool) int { return 3 * (seqCount(len(c13SweepPlans), 3) - 1) }
+
+func c13Sweep(e *Env) {
+	k := e.Case
+	R := k % 3
+	seq := decodeSeq(k/3+1, len(c13SweepPlans))
+	var plans []dwPlan
+	for _, s := range seq {
+		p := c13SweepPlans[s]
+		if R == 0 && (p.kind == "ack-retrans" || p.kind == "both" || p.kind == "late") {
+			p = dwPlan{kind: "ack", delay: time.Microsecond} // needs a retransmission to exist
+		}
+		plans = append(plans, p)
+		if p.kind == "silent" {
+			break
+		}
+	}
+	e.NonTrivial()
+	c13ClientX(e, false, &c13Forced{R: R, plans: plans})
 }
